@@ -12,7 +12,7 @@ if "--n" in sys.argv:
 seed = 1
 if "--seed" in sys.argv:
     seed = int(sys.argv[sys.argv.index("--seed") + 1])
-LIMITS = {"v3-r1", "v4-r1", "v8-r2", "x8-r5", "q4-r1", "n7-r5", "n8-r1", "n8-r5", "k3-r6", "k4-r4", "k5-r4", "k7-r2"}
+LIMITS = {"v3-r1", "v4-r1", "v8-r2", "x8-r5", "q4-r1", "n7-r5", "n8-r1", "n8-r5", "k3-r6", "k4-r4", "k5-r4", "k7-r2", "j1-r4", "j3-r5", "j4-r3", "j4-r6", "j6-r5"}
 env = dict(os.environ, GOFLAGS="-mod=mod", GOPROXY="off", GOSUMDB="off", GOTOOLCHAIN="local")
 env.pop("GOWORK", None)
 def files(patch):
